@@ -59,7 +59,8 @@ def options(rng, lang_doc):
         defs=rng.choice(['', '', '', '\\newcommand{\\dd}[1]{D#1}\n',
                          '\\usepackage{babel}\\selectlanguage{german}\n'
                          '\\newcommand{\\dd}{X}\\footnote{defs foot}\n']),
-        extr=rng.choice(['', '', '', '', 'footnote', 'section,caption']),
+        extr=rng.choice(['', '', '', '', '', '', 'footnote', 'section,caption', 'LaTeX',
+                         'TeX,footnote', 'nosuchmacro,item', 'hfill']),
         repl=rng.choice([None, None, None, ['und so & x'],
                          ['so dass & sodass immer noch', 'zum Beispiel & z. B.'],
                          ['a b & c\\d', 'x & '], ['# c', '& y', 'qq & w w w']]),
